@@ -129,6 +129,14 @@
 //!               client->server history)
 //!  tp-churn     max_clients 1-2, five relay slots, clients come, are denied, leave in all four ways,
 //!               new clients (fresh token, new id) on free or re-used relay slots; lossless
+//!  tp-bounce    0-2 bystander sessions; 1-2 clients whose session begins AND ends inside ONE server update: the relay
+//!               keeps the connection response (for 0-2 server updates), the client disconnects (RenetClient::disconnect
+//!               + update, or transport.disconnect) and response + Disconnect datagram are handed over together; the
+//!               application reads its events right away or one server update later; optionally a fresh client on the
+//!               bouncer's relay slot afterwards (ordinary session); `note settled`.
+//!               (The other window — a connect event still unread when a LATER update removes the client — does not exist
+//!               in this engine: `t-supd` / `t-sdiscall` move the events out of RenetServer right after the call, here and
+//!               in the model, so `t-ev` only paces the reading of an already collected list.)
 //!
 //! # Oracles (prop C20; all pure functions of (ops, outs))
 //!  tp-lockstep        (a) every t-state right after a t-supd: rc = nc, nn = |nc|, rd = [], bad = []
@@ -151,6 +159,9 @@
 //!                         like a time-out (client: netcode time-out reason or DisconnectedByServer with
 //!                         renet reason Transport; server event reason Transport)
 //!  tp-no-panic        (f)
+//!  tp-session-events  (l) per session netcode reported connected (id listed in a `t-state`'s nc, or the bounce evidence:
+//!                         see `oracle_session_events`): whenever the events have been read empty, exactly one
+//!                         `connected <id>`; once the session is over, exactly one `disconnected <id>` after it
 //! The oracles re-derive "lossless" from the ops (t-q/t-fwd bookkeeping, t-fwdn/t-fwdall flushes,
 //! update alternation) instead of trusting the `note`, so that shrunk traces cannot turn a removed
 //! forward into a false alarm.
@@ -1522,6 +1533,67 @@ impl<'a> Drv<'a> {
             }
         }
     }
+    /// Slot k's client (never updated so far) completes the handshake and leaves inside ONE server update: request and
+    /// challenge travel as usual, the relay keeps the response while `hold` server updates pass, the client disconnects,
+    /// response and Disconnect datagram reach the server socket together. The `t-q` / `t-state` / `t-acc` lines are what
+    /// `oracle_session_events` reads the completed handshake from. `late_read`: the application looks at its events only
+    /// after the NEXT server update.
+    fn bounce(&mut self, rng: &mut Rng, k: usize, dt: u64, hold: u64, by_renet: bool, late_read: bool) {
+        // request -> challenge
+        self.tick += 1;
+        self.now_us += dt;
+        self.x(&format!("t-cupd {} {}", k, dt));
+        self.clients_part(rng, dt, 1);
+        self.x("t-q");
+        self.fwd_lossless(UP);
+        self.server_part(rng, dt, 1);
+        self.x("t-q");
+        self.fwd_lossless(DOWN);
+        // challenge -> response, which stays in the relay
+        self.tick += 1;
+        self.now_us += dt;
+        self.x(&format!("t-cupd {} {}", k, dt));
+        self.x("t-state");
+        self.x("t-acc");
+        self.x("t-q");
+        self.hole[k] = true;
+        self.clients_part(rng, dt, 1);
+        for _ in 0..hold {
+            self.fwd_lossless(UP);
+            self.server_part(rng, dt, 1);
+            self.fwd_lossless(DOWN);
+            self.tick += 1;
+            self.now_us += dt;
+            self.clients_part(rng, dt, 1);
+        }
+        // the client leaves before it has heard of its connection
+        if by_renet {
+            self.x(&format!("t-cdisc {}", k));
+            if self.x(&format!("t-cupd {} {}", k, dt)).starts_with("err:") {
+                self.errs[k] += 1;
+            }
+        } else {
+            self.x(&format!("t-ctdisc {}", k));
+        }
+        self.ended[k] = true;
+        self.upd[k] = true;
+        self.x("t-q");
+        self.hole[k] = false;
+        self.fwd_lossless(UP);
+        // the update that sees the whole session
+        self.x(&format!("t-supd {}", dt));
+        self.x("t-q");
+        if late_read {
+            self.x("t-state");
+            self.x("t-ssend");
+            self.fwd_lossless(DOWN);
+            self.round_lossless(rng, dt, 1);
+        } else {
+            self.events_and_state();
+            self.x("t-ssend");
+            self.fwd_lossless(DOWN);
+        }
+    }
     /// lossless rounds until every ended session had its time-out
     fn wait_lossless(&mut self, rng: &mut Rng, dt: u64) {
         while self.now_us < self.slow_until {
@@ -1952,6 +2024,63 @@ fn script_dupid(rng: &mut Rng, _tier: Tier, ex: &mut dyn FnMut(&str) -> String) 
     }
 }
 
+/// profile 5: sessions that begin and end inside one server update (see `Drv::bounce`), next to ordinary ones
+fn script_bounce(rng: &mut Rng, _tier: Tier, ex: &mut dyn FnMut(&str) -> String) {
+    let tag = rng.0;
+    let nby = rng.below(3) as usize;
+    let nbo = rng.range(1, 2) as usize;
+    let n = nby + nbo;
+    // (the table never fills: a place for every client object of the trace)
+    let maxc = n + 1 + rng.below(2) as usize;
+    let timeout_s = rng.pick(&[2u64, 3, 5]);
+    let mut d = Drv::start(ex, tag, n, maxc, timeout_s, 60, n, &["lossless"]);
+    for k in nby..n {
+        d.upd[k] = false;
+    }
+    let dt = rng.pick(&[16_000u64, 50_000, 100_000, 250_000]);
+    // the bystanders are connected, half-way there, or start together with the first bouncer
+    for _ in 0..rng.pick(&[0u64, 2, 4, 5]) {
+        d.round_lossless(rng, dt, 1);
+        d.reads(rng, false);
+    }
+    let mut rebound = false;
+    for k in nby..n {
+        let (hold, by_renet, late_read) = (rng.below(3), rng.chance(1, 2), rng.chance(1, 2));
+        d.bounce(rng, k, dt, hold, by_renet, late_read);
+        for _ in 0..rng.below(3) {
+            d.round_lossless(rng, dt, 1);
+            d.reads(rng, false);
+        }
+        if !rebound && rng.chance(1, 2) {
+            // a new client object on the bouncer's relay slot: an ordinary session from the same address
+            rebound = true;
+            d.round_lossless(rng, dt, 0);
+            d.new_client(k, 300 + k as u64);
+            for _ in 0..4 {
+                d.round_lossless(rng, dt, 1);
+            }
+            d.reads(rng, false);
+        }
+    }
+    for _ in 0..2 {
+        d.round_lossless(rng, dt, 1);
+        d.reads(rng, false);
+    }
+    for k in d.live_slots() {
+        if rng.chance(2, 3) {
+            d.disc(rng.pick(&[Disc::CDisc, Disc::CTDisc, Disc::SDisc]), k);
+            if rng.chance(1, 2) {
+                d.round_lossless(rng, dt, 1);
+            }
+        }
+    }
+    for _ in 0..4 {
+        d.round_lossless(rng, dt.max(50_000), 0);
+    }
+    d.reads(rng, true);
+    d.settle();
+}
+
 fn nontrivial(t: &Trace) -> bool {
     t.outs.iter().any(|o| o.starts_with("connected ")) && t.outs.iter().any(|o| o.starts_with("msg ") || (o.starts_with("msgs ") && !o.starts_with("msgs 0")))
 }
@@ -2007,6 +2136,17 @@ pub fn profiles() -> Vec<Profile> {
             new_world,
             script: script_churn,
             nontrivial,
+            keep: keep_cfg,
+            fixed: None,
+        },
+        Profile {
+            name: "tp-bounce",
+            props: &["C20"],
+            cases: |t| tier_cases(t, 24, 200),
+            new_world,
+            script: script_bounce,
+            // the session of a bouncer reached the application: connected and disconnected, nothing in between
+            nontrivial: |t| t.outs.windows(2).any(|w| w[0].starts_with("connected ") && w[1].starts_with("disconnected ") && w[0][10..] == *w[1][13..].split(' ').next().unwrap_or("")),
             keep: keep_cfg,
             fixed: None,
         },
@@ -3265,6 +3405,281 @@ fn oracle_disconnect_reasons(ops: &[String], outs: &[String]) -> Option<OracleFa
     None
 }
 
+/// (l) "each connect and disconnect reaches the application exactly once with the right id", counted per session over the
+/// whole event stream: the clause is evaluated whenever the application has read its events empty (`t-ev` -> `none`),
+/// however rarely it does so, and says nothing about when.
+///
+/// A session that netcode reported as connected is recognised in two ways:
+///  * listed: a `t-state` shows the id in netcode's table (`nc`); it is over once a later `t-state` no longer does;
+///  * bounced: the whole session lies inside one server update, so no `t-state` ever lists it. What the trace shows
+///    instead, for the FIRST client object of relay slot k (nothing older in its queues), with no `t-fwd`/`t-fwdm`/`t-junk`
+///    for the slot and no other op of that client in between:
+///      1. `t-cupd k d1` (ok, d1 > 0), `t-q`: up[k] = 1 (the request); flushed (`t-fwdn up k` / `t-fwdall up`); `t-supd` (ok);
+///         `t-q`: down[k] = 1 (the server's answer); flushed down;
+///      2. `t-cupd k d2` (ok); then `t-q`: up[k] = 2, `t-state`: c<k> = id:connecting/-, `t-acc`: the client last accepted
+///         a datagram d2 ago, i.e. in this update (without one it would be d1 + d2). A connecting netcode client accepts
+///         a challenge or a denial only, and a denial would show as its reason: the client took the challenge and item 1
+///         is its connection response. The response is NOT flushed yet (server updates may pass);
+///      3. `t-ctdisc k` (ok), or `t-cdisc k` (ok) + `t-cupd k ..` = err:Renet:DisconnectedByClient; `t-q`: up[k] = 3 (the
+///         Disconnect datagram) and down[k] = x; flushed up: response and Disconnect arrive together, in this order;
+///      4. `t-supd` (ok); `t-q`: down[k] > x. The server sends a pending client nothing but its answer to a response: the
+///         keep-alive that completes the handshake, or a denial when the table is full — excluded, the table of `t-new`
+///         has a place for every client object created so far. So `ClientConnected` was reported for id, and the
+///         Disconnect datagram behind it, from the then connected address, ended that session in the same update.
+/// For both kinds: at every point where the events are read empty, exactly one `connected <id>` so far; for a session that
+/// is over also exactly one `disconnected <id>`, which came after the `connected`. (Ids are never re-used for a second
+/// handshake in this harness, see tp-connect-once.)
+fn oracle_session_events(ops: &[String], outs: &[String]) -> Option<OracleFail> {
+    #[derive(Default, Clone)]
+    struct B {
+        id: u64,
+        /// 0 fresh, 1 request sent, 2 .. counted, 3 .. flushed, 4 server updated, 5 answer counted, 6 .. flushed,
+        /// 7 second client update (observations pending), 8 response queued, 9 RenetClient::disconnect called,
+        /// 10 Disconnect sent, 11 .. counted, 12 response + Disconnect flushed, 13 server updated; 99 not this pattern
+        stage: u8,
+        d1: u64,
+        d2: u64,
+        seen_q: bool,
+        seen_state: bool,
+        seen_acc: bool,
+        x: usize,
+    }
+    let mut slots: HashMap<usize, B> = HashMap::new();
+    let mut used: HashSet<usize> = HashSet::new();
+    let (mut table, mut objects) = (0usize, 0usize);
+    let mut ghost = false;
+    // id -> op of the evidence
+    let mut up_ev: BTreeMap<u64, usize> = BTreeMap::new();
+    let mut over_ev: BTreeMap<u64, usize> = BTreeMap::new();
+    let mut bounced: HashSet<u64> = HashSet::new();
+    let (mut nconn, mut ndisc): (HashMap<u64, usize>, HashMap<u64, usize>) = (HashMap::new(), HashMap::new());
+    let n = ops.len().min(outs.len());
+    for i in 0..n {
+        let t = toks(&ops[i]);
+        let out = outs[i].as_str();
+        let slot_arg = |j: usize| t.get(j).and_then(|x| x.parse::<usize>().ok());
+        match t[0] {
+            "note" if t.len() == 2 && t[1] == "ghost" => ghost = true,
+            "t-new" if t.len() >= 5 && out == "ok" => {
+                let nc: usize = t[1].parse().unwrap_or(0);
+                table = t[2].parse().unwrap_or(0);
+                objects = nc;
+                for k in 0..nc {
+                    slots.insert(k, B { id: 100 + k as u64, ..B::default() });
+                    used.insert(k);
+                }
+            }
+            "t-cnew" if t.len() == 3 => {
+                if let Some(k) = slot_arg(1) {
+                    if out == "ok" {
+                        objects += 1;
+                    }
+                    // only a slot's first client object is followed; its id comes from the op
+                    let first = used.insert(k);
+                    let id = t[2].parse::<u64>().ok();
+                    match (first && out == "ok", id) {
+                        (true, Some(id)) => {
+                            slots.insert(k, B { id, ..B::default() });
+                        }
+                        _ => {
+                            slots.remove(&k);
+                        }
+                    }
+                }
+            }
+            "t-fwd" | "t-fwdm" | "t-junk" => {
+                let j = if t[0] == "t-junk" { 1 } else { 2 };
+                if let Some(b) = slot_arg(j).and_then(|k| slots.get_mut(&k)) {
+                    b.stage = 99;
+                }
+            }
+            "t-mark" => {
+                for b in slots.values_mut() {
+                    b.stage = 99;
+                }
+            }
+            "t-csend" | "t-send" if t.len() >= 2 => {
+                let k = if t[0] == "t-send" { t[1].strip_prefix('c').and_then(|x| x.parse::<usize>().ok()) } else { slot_arg(1) };
+                if let Some(b) = k.and_then(|k| slots.get_mut(&k)) {
+                    b.stage = 99;
+                }
+            }
+            "t-cupd" if t.len() == 3 => {
+                let d: u64 = t[2].parse().unwrap_or(0);
+                if let Some(b) = slot_arg(1).and_then(|k| slots.get_mut(&k)) {
+                    b.stage = match b.stage {
+                        0 if out == "ok" && d > 0 => {
+                            b.d1 = d;
+                            1
+                        }
+                        6 if out == "ok" => {
+                            b.d2 = d;
+                            7
+                        }
+                        9 if out == "err:Renet:DisconnectedByClient" => 10,
+                        14 => 14,
+                        _ => 99,
+                    };
+                }
+            }
+            "t-cdisc" | "t-ctdisc" if t.len() == 2 => {
+                if let Some(b) = slot_arg(1).and_then(|k| slots.get_mut(&k)) {
+                    b.stage = match (b.stage, t[0], out) {
+                        (8, "t-cdisc", "ok") => 9,
+                        (8, "t-ctdisc", "ok") => 10,
+                        (14, _, _) => 14,
+                        _ => 99,
+                    };
+                }
+            }
+            "t-fwdn" | "t-fwdall" if out.starts_with("ok") => {
+                let dir = t.get(1).and_then(|x| parse_dir(x));
+                let only = if t[0] == "t-fwdn" { slot_arg(2) } else { None };
+                for (k, b) in slots.iter_mut() {
+                    if t[0] == "t-fwdn" && only != Some(*k) {
+                        continue;
+                    }
+                    b.stage = match (b.stage, dir) {
+                        (2, Some(UP)) => 3,
+                        (5, Some(DOWN)) => 6,
+                        (11, Some(UP)) => 12,
+                        // a client-to-server item handed over at any other moment: not this pattern
+                        (1 | 7..=10, Some(UP)) => 99,
+                        (4, Some(DOWN)) => 99,
+                        (s, _) => s,
+                    };
+                }
+            }
+            "t-supd" | "t-ssend" | "t-sdiscall" => {
+                for b in slots.values_mut() {
+                    b.stage = match (b.stage, t[0], out) {
+                        (3, "t-supd", "ok") => 4,
+                        (12, "t-supd", "ok") => 13,
+                        // (the server may have sent something since the count of step 3 was taken: count again)
+                        (11, _, _) => 10,
+                        (3 | 12, _, _) => 99,
+                        (s, _, _) => s,
+                    };
+                }
+            }
+            "t-q" => {
+                if let Some(q) = parse_q(out) {
+                    for (k, b) in slots.iter_mut() {
+                        let (Some(u), Some(dn)) = (q[UP].get(*k).copied(), q[DOWN].get(*k).copied()) else { continue };
+                        match b.stage {
+                            1 => b.stage = if u == 1 && dn == 0 { 2 } else { 99 },
+                            4 => b.stage = if u == 1 && dn == 1 { 5 } else { 99 },
+                            7 => {
+                                if u == 2 && dn == 1 {
+                                    b.seen_q = true
+                                } else {
+                                    b.stage = 99
+                                }
+                            }
+                            10 => {
+                                b.stage = if u == 3 { 11 } else { 99 };
+                                b.x = dn;
+                            }
+                            13 => {
+                                if u == 3 && dn > b.x && objects <= table {
+                                    b.stage = 14;
+                                    bounced.insert(b.id);
+                                    up_ev.entry(b.id).or_insert(i);
+                                    over_ev.entry(b.id).or_insert(i);
+                                } else {
+                                    b.stage = 99;
+                                }
+                            }
+                            _ => {}
+                        }
+                    }
+                }
+            }
+            "t-acc" if out.starts_with("acc ") => {
+                for f in out.split(' ').skip(1) {
+                    let Some((key, v)) = f.split_once('=') else { continue };
+                    let Some(b) = key.strip_prefix('c').and_then(|x| x.parse::<usize>().ok()).and_then(|k| slots.get_mut(&k)) else { continue };
+                    if b.stage == 7 {
+                        let p: Vec<&str> = v.split(':').collect();
+                        let idle = p.get(2).and_then(|x| x.parse::<u128>().ok());
+                        if p.len() == 3 && p[0].parse::<u64>().ok() == Some(b.id) && idle == Some(b.d2 as u128 * 1000) {
+                            b.seen_acc = true;
+                        } else {
+                            b.stage = 99;
+                        }
+                    }
+                }
+            }
+            "t-state" => {
+                if let Some(st) = parse_state(out) {
+                    for (k, b) in slots.iter_mut() {
+                        if b.stage == 7 {
+                            match st.cl.get(k) {
+                                Some((id, rs, nr)) if *id == b.id && rs == "connecting" && nr == "-" && !st.nc.contains(id) => b.seen_state = true,
+                                _ => b.stage = 99,
+                            }
+                        }
+                    }
+                    for id in st.nc.iter() {
+                        if !bounced.contains(id) {
+                            up_ev.entry(*id).or_insert(i);
+                        }
+                    }
+                    let gone: Vec<u64> = up_ev.keys().filter(|id| !st.nc.contains(id) && !over_ev.contains_key(id)).copied().collect();
+                    for id in gone {
+                        over_ev.insert(id, i);
+                    }
+                }
+            }
+            "t-ev" => {
+                let e: Vec<&str> = out.split(' ').collect();
+                if e.len() >= 2 && e[0] == "connected" {
+                    if let Ok(id) = e[1].parse::<u64>() {
+                        let c = nconn.entry(id).or_insert(0);
+                        *c += 1;
+                        if *c > 1 && !ghost {
+                            return fail(i, "session-connect-event-repeated", format!("`connected {}` reached the application {} times; the id stands for one handshake", id, c));
+                        }
+                    }
+                } else if e.len() >= 2 && e[0] == "disconnected" {
+                    if let Ok(id) = e[1].parse::<u64>() {
+                        if nconn.get(&id).copied().unwrap_or(0) == 0 {
+                            return fail(i, "session-disconnect-before-connect", format!("`{}` reached the application before any `connected {}`", out, id));
+                        }
+                        let c = ndisc.entry(id).or_insert(0);
+                        *c += 1;
+                        if *c > 1 && !ghost {
+                            return fail(i, "session-disconnect-event-repeated", format!("`disconnected {}` reached the application {} times; the id stands for one session", id, c));
+                        }
+                    }
+                } else if out == "none" {
+                    // everything the server calls so far produced has been read
+                    for (id, at) in up_ev.iter() {
+                        let how = if bounced.contains(id) { "its client accepted the challenge and the server answered the response" } else { "netcode's table listed it" };
+                        if nconn.get(id).copied().unwrap_or(0) == 0 {
+                            return fail(i, if bounced.contains(id) { "bounced-session-without-connect-event" } else { "session-without-connect-event" }, format!("session {} completed its handshake (op {}: {}) but no `connected {}` has reached the application, whose events are read empty here", id, at, how, id));
+                        }
+                    }
+                    for (id, at) in over_ev.iter() {
+                        let how = if bounced.contains(id) { "the client's Disconnect datagram arrived in the update that connected it" } else { "netcode's table no longer lists it" };
+                        if ndisc.get(id).copied().unwrap_or(0) == 0 {
+                            return fail(i, if bounced.contains(id) { "bounced-session-without-disconnect-event" } else { "session-without-disconnect-event" }, format!("session {} is over (op {}: {}) but no `disconnected {}` has reached the application, whose events are read empty here", id, at, how, id));
+                        }
+                    }
+                }
+            }
+            _ => {}
+        }
+        // step 2 is complete once all three observations are in
+        for b in slots.values_mut() {
+            if b.stage == 7 && b.seen_q && b.seen_state && b.seen_acc {
+                b.stage = 8;
+            }
+        }
+    }
+    None
+}
+
 /// (f) nothing unwinds
 fn oracle_no_panic(ops: &[String], outs: &[String]) -> Option<OracleFail> {
     for (i, o) in outs.iter().enumerate() {
@@ -3290,6 +3705,7 @@ pub fn oracles() -> Vec<Oracle> {
         Oracle { prop: "C11", name: "tp-channels", engines: &["tp-lossless"], check: oracle_channels },
         Oracle { prop: "C20", name: "tp-client-status", engines: &["tp-"], check: oracle_client_status },
         Oracle { prop: "C20", name: "tp-accessors", engines: &["tp-"], check: oracle_accessors },
+        Oracle { prop: "C20", name: "tp-session-events", engines: &["tp-"], check: oracle_session_events },
         Oracle { prop: "C20", name: "tp-junk-no-delay", engines: &["tp-"], check: oracle_junk_no_delay },
         Oracle { prop: "C11", name: "tp-junk-no-delay", engines: &["tp-"], check: oracle_junk_no_delay },
     ]
